@@ -6,6 +6,7 @@ import GstVerif.Krig.Driver
 import GstVerif.Rng.Driver
 import GstVerif.Neigh.Driver
 import GstVerif.Vario.Driver
+import GstVerif.Calc.Driver
 /-
   gstmodel: line-protocol driver.  One request per input line:
       <model> <op> <args…> => <implementation's answer…>
@@ -29,6 +30,7 @@ def dispatch (line : String) : String :=
   | "r" :: args => Rng.handle args impl
   | "n" :: args => Neigh.handle args impl
   | "v" :: args => Vario.handle args impl
+  | "c" :: args => Calc.handle args impl
   | _ => "bad-op"
 
 partial def loop (h : IO.FS.Stream) (out : IO.FS.Stream) : IO Unit := do
